@@ -66,7 +66,7 @@ func main() {
 	})
 }
 
-func plan(tier string, seed int64) []run.Batch {
+func planBase(tier string, seed int64) []run.Batch {
 	var bs []run.Batch
 	if dbg := os.Getenv("C11_DEBUG_IDS"); dbg != "" {
 		// debugging aid: run the given outcome cases (JSON list) in parallel batches, nothing else
@@ -1175,7 +1175,7 @@ func outcomeCase(g int, seed int64) *caseCfg {
 	return cc
 }
 
-func child(b run.Batch, r *ev.Result) {
+func childBase(b run.Batch, r *ev.Result) {
 	switch b.Kind {
 	case "outcomes":
 		var ids []int
